@@ -33,6 +33,8 @@ type Op struct {
 }
 
 type Case struct {
+	// Lazy is a validator (index+1, 0 = none) that claims external events only in explicit catch-up relays.
+	Lazy  int        `json:"lazy,omitempty"`
 	Cfg   sim.Config `json:"cfg"`
 	Funds string     `json:"funds"` // initial balance of every hub user in every denom ("" = none)
 	Ops   []Op       `json:"ops"`
@@ -185,7 +187,7 @@ func genFee(t *rapid.T, label string) string {
 
 var defaultWeights = map[string]int{
 	"send": 30, "cancel": 7, "reqbatch": 7, "deposit": 4, "transfer": 6, "exec": 4,
-	"tick": 2, "hb": 1, "relay": 5, "block": 24, "burst": 0, "xexec": 14, "xtick": 7, "send2": 4, "hostile": 0, "oprice": 0, "oholders": 0, "sign": 0,
+	"tick": 2, "hb": 1, "relay": 5, "block": 24, "burst": 0, "xexec": 14, "xtick": 7, "send2": 4, "hostile": 0, "oprice": 0, "oholders": 0, "sign": 0, "byz": 0,
 }
 
 // GenOps draws the operation list for a configuration.
@@ -203,7 +205,7 @@ func GenOps(t *rapid.T, cfg sim.Config, o GenOpts) []Op {
 	if o.Bursts && w["burst"] == 0 {
 		w["burst"] = 2
 	}
-	kinds := []string{"send", "cancel", "reqbatch", "deposit", "transfer", "exec", "tick", "hb", "relay", "block", "burst", "xexec", "xtick", "send2", "hostile", "oprice", "oholders", "sign"}
+	kinds := []string{"send", "cancel", "reqbatch", "deposit", "transfer", "exec", "tick", "hb", "relay", "block", "burst", "xexec", "xtick", "send2", "hostile", "oprice", "oholders", "sign", "byz"}
 	total := 0
 	for _, k := range kinds {
 		total += w[k]
@@ -288,6 +290,10 @@ func GenOps(t *rapid.T, cfg sim.Config, o GenOpts) []Op {
 			op.A = genFee(t, "feepaid")
 			op.N = rapid.SampledFrom([]int{0, 0, 0, 1}).Draw(t, "valset")
 			op.T = lag(t)
+		case "byz":
+			// the weakest validator (if it holds < 1/3) claims a mutated copy of the next external event first
+			op.C = chainGen.Draw(t, "c")
+			op.N = rapid.IntRange(0, 6).Draw(t, "mutation")
 		case "oprice", "oholders":
 			// every validator reports prices / a holders list for the current oracle epoch
 			op.R = rapid.IntRange(0, 9).Draw(t, "spread")
@@ -319,6 +325,7 @@ func GenOps(t *rapid.T, cfg sim.Config, o GenOpts) []Op {
 		case "relay":
 			op.C = chainGen.Draw(t, "c")
 			op.N = rapid.SampledFrom([]int{1, 1, 2, 5, 100}).Draw(t, "n")
+			op.R = rapid.SampledFrom([]int{0, 1, 1}).Draw(t, "catchup") // 1 = the lazy validator catches up too
 		case "block":
 			op.T = rapid.SampledFrom([]int64{1, 5, 5, 5, 6, 19, 20, 21, 61, 100000}).Draw(t, "dt")
 		}
@@ -343,6 +350,9 @@ func GenCase(o GenOpts) func(t *rapid.T) interface{} {
 	return func(t *rapid.T) interface{} {
 		cfg := GenConfig(t, o)
 		c := &Case{Cfg: cfg}
+		if len(cfg.Vals) >= 3 && rapid.IntRange(0, 9).Draw(t, "lazy") < 3 {
+			c.Lazy = 1 + rapid.IntRange(1, len(cfg.Vals)-1).Draw(t, "lazyval")
+		}
 		if !o.NoFunds {
 			c.Funds = "1000000000000000000000000000000000000000000000000000000000000000"
 		}
